@@ -6,7 +6,11 @@ Domain : call lists of length 0..10 over a stateful reference class `Ref` (count
          unknown, dotted, empty), wrong signatures and kwargs; normal and oneway batch mode; 4 serializers; 2 server types;
          a real daemon on a unix socket.  Every batch is submitted twice, each time to a FRESH object behind a fresh proxy:
          (raw)        proxy._pyroInvokeBatch(calls, oneway)      - no client side name filter at all
-         (batchproxy) Pyro5.api.BatchProxy(proxy).<name>(...)... ; batch(oneway) and the result generator consumed item by item
+         (batchproxy) Pyro5.api.BatchProxy(proxy).<name>(...)... ; batch(oneway) and the result generator consumed item by item;
+                      plain, or as a context manager (submitted - and a failing submit handled - inside the block, or behind it)
+         and a third fresh object gets the same calls ONE BY ONE over the wire (remote sequential reference).  A third of the
+         cases also passes values beyond the lossless core (bytes, tuples, sets, ... whatever the serializer carries) through
+         put/get/pair/append: those are compared with the remote one-by-one run only.
 Oracle : the same class instantiated locally, called one by one with plain Python under the harness's own exposure rule
          (a name outside the fixed exposed set is a failing call, AttributeError), stopping at the first failure.
          (1) results before the failure are `same` (type strict) as the reference's, the failure arrives as an exception of
@@ -34,7 +38,8 @@ RULE = ("a case = (serializer, server type, oneway?, list of 0..10 calls [name, 
         "at a generated position (first/middle/last/none), a failing member: method raising one of 13 exception kinds, refused "
         "name (unexposed, private, dunder, unknown, dotted, empty), KeyError lookup, wrong signature. Each case is executed "
         "through Proxy._pyroInvokeBatch and (when the names can be spelled through it) through BatchProxy, on fresh objects, and "
-        "compared with a local sequential run. Non-trivial: length >= 2 with the first failure not in last position, or oneway; "
+        "compared with a local sequential run and with the same calls made one by one over the wire on an identical object (results and state); "
+        "BatchProxy plain or as context manager; a third of the cases carries values beyond the lossless core. Non-trivial: length >= 2 with the first failure not in last position, or oneway; "
         "distinct = distinct case JSON")
 ASSUMPTIONS = [
     "a oneway BATCH is executed synchronously by the connection's server loop (Daemon.handleRequest runs the batch loop inline "
@@ -336,7 +341,7 @@ def execute(case, api):
         batch = client.BatchProxy(p)
         if warm:
             # an earlier batch on the same connection - through the SAME BatchProxy object for the public api (re-use is supported)
-            if api == "raw":
+            if api in ("raw", "sequential"):
                 p._pyroInvokeBatch(wcalls, bool(warm["oneway"]))
             else:
                 for name, args, kwargs in wcalls:
@@ -346,60 +351,101 @@ def execute(case, api):
                     list(wr)        # ("late": its results are read only after the next batch was submitted; "never": not at all)
                     wr = None
         seq0 = p._pyroSeq   # the proxy advances its sequence number when (and only when) it builds a request message
-        try:
-            if api == "raw":
-                r = p._pyroInvokeBatch(calls, oneway)
-                if r is None:
-                    out.returned_none = True
-                elif not isinstance(r, list):
-                    out.returned_type = type(r).__name__
-                else:
-                    for i, item in enumerate(r):
-                        if isinstance(item, core._ExceptionWrapper):
-                            try:
-                                item.raiseIt()
-                                out.not_raised = "raiseIt() of the exception wrapper at position %d returned normally" % i
-                            except BaseException as x:      # noqa
-                                out.exc, out.exc_at = x, i
-                            out.trailing = len(r) - i - 1
-                            break
-                        out.results.append(item)
+
+        def do_raw():
+            r = p._pyroInvokeBatch(calls, oneway)
+            if r is None:
+                out.returned_none = True
+            elif not isinstance(r, list):
+                out.returned_type = type(r).__name__
             else:
-                for name, args, kwargs in calls:
-                    parts = name.split(".")
-                    m = getattr(batch, parts[0])
-                    for part in parts[1:]:
-                        m = getattr(m, part)
-                    m(*args, **kwargs)
-                gen = batch(oneway=oneway) if oneway else batch()
-                if gen is None:
-                    out.returned_none = True
-                elif not hasattr(gen, "__next__"):
-                    out.returned_type = type(gen).__name__
-                else:
-                    limit = len(calls) + 3
-                    while limit:
-                        limit -= 1
+                for i, item in enumerate(r):
+                    if isinstance(item, core._ExceptionWrapper):
                         try:
-                            item = next(gen)
-                        except StopIteration:
-                            break
+                            item.raiseIt()
+                            out.not_raised = "raiseIt() of the exception wrapper at position %d returned normally" % i
                         except BaseException as x:      # noqa
-                            if out.exc is not None:
-                                out.trailing += 1       # a second exception after the first one
-                                break
-                            out.exc, out.exc_at = x, len(out.results)
-                            continue     # a generator that raised is finished: the next next() must say StopIteration
+                            out.exc, out.exc_at = x, i
+                        out.trailing = len(r) - i - 1
+                        break
+                    out.results.append(item)
+
+        def do_sequential():
+            # the same calls made ONE BY ONE over the wire (the statement's own reference), stopping at the first failure.
+            # (a member flagged @oneway would be carried out in a thread of its own, some time later: asked for synchronously here,
+            #  so that "one after another" is what happens)
+            p._pyroOneway = set()
+            for i, (name, args, kwargs) in enumerate(calls):
+                try:
+                    out.results.append(p._pyroInvoke(name, args, kwargs))
+                except BaseException as x:      # noqa
+                    if isinstance(x, (HarnessError, KeyboardInterrupt, SystemExit)):
+                        raise
+                    _guard(x)
+                    out.exc, out.exc_at = x, i
+                    break
+
+        def do_queue():
+            for name, args, kwargs in calls:
+                parts = name.split(".")
+                m = getattr(batch, parts[0])
+                for part in parts[1:]:
+                    m = getattr(m, part)
+                m(*args, **kwargs)
+
+        def do_submit():
+            gen = batch(oneway=oneway) if oneway else batch()
+            if gen is None:
+                out.returned_none = True
+            elif not hasattr(gen, "__next__"):
+                out.returned_type = type(gen).__name__
+            else:
+                limit = len(calls) + 3
+                while limit:
+                    limit -= 1
+                    try:
+                        item = next(gen)
+                    except StopIteration:
+                        break
+                    except BaseException as x:      # noqa
                         if out.exc is not None:
-                            out.trailing += 1
-                        else:
-                            out.results.append(item)
-        except BaseException as x:      # noqa   raised by the submission itself
-            if isinstance(x, (HarnessError, KeyboardInterrupt, SystemExit)):
-                raise
-            out.exc, out.exc_at = x, "submit"
+                            out.trailing += 1       # a second exception after the first one
+                            break
+                        out.exc, out.exc_at = x, len(out.results)
+                        continue     # a generator that raised is finished: the next next() must say StopIteration
+                    if out.exc is not None:
+                        out.trailing += 1
+                    else:
+                        out.results.append(item)
+
+        def guarded(*steps):
+            try:
+                for step in steps:
+                    step()
+            except BaseException as x:      # noqa   raised by the submission itself
+                if isinstance(x, (HarnessError, KeyboardInterrupt, SystemExit)):
+                    raise
+                out.exc, out.exc_at = x, "submit"
+
+        style = case.get("style", "plain")
+        if api == "raw":
+            guarded(do_raw)
+        elif api == "sequential":
+            do_sequential()
+        elif style == "with-inside":
+            # the BatchProxy driven as a context manager, everything (also a failing submit, handled by the caller) inside the block
+            with batch:
+                guarded(do_queue, do_submit)
+        elif style == "with-after":
+            # the block only builds the batch, it is submitted behind it
+            with batch:
+                guarded(do_queue)
+            if out.exc is None:
+                guarded(do_submit)
+        else:
+            guarded(do_queue, do_submit)
         out.sent = p._pyroSeq != seq0
-        if warm and api != "raw" and warm.get("consume") == "late" and wr is not None:
+        if warm and api == "batchproxy" and warm.get("consume") == "late" and wr is not None:
             try:
                 list(wr)
             except Exception:
@@ -493,8 +539,9 @@ def _image(ser, v):
     return v
 
 
-def judge(case, ref, out, api):
+def judge(case, ref, out, api, seq=None):
     """-> list of (family, what)"""
+    ext = bool(case.get("ext"))      # arguments beyond the lossless core: values are compared with the remote one-by-one run only
     n = len(case["calls"])
     oneway = bool(case["oneway"])
     tag = "%s/%s/%s%s batch of %d: " % (api, case["ser"], case["servertype"], "/oneway" if oneway else "", n)
@@ -529,7 +576,11 @@ def judge(case, ref, out, api):
             # a result sequence (possibly ended by an exception at a position)
             upto = min(len(out.results), len(ref.results))
             for i in range(upto):
-                if not V.same(out.results[i], _image(case["ser"], ref.results[i])):
+                if seq is not None and i < len(seq.results) and not V.same(out.results[i], seq.results[i]):
+                    add("results-differ-from-one-by-one-calls", "result %d (%s) is %s, the same call made on its own (same serializer, identical object) returns %s" % (
+                        i, case["calls"][i][0], _short(out.results[i]), _short(seq.results[i])))
+                    break
+                if not ext and not V.same(out.results[i], _image(case["ser"], ref.results[i])):
                     add("results-differ", "result %d (%s) is %s, sequential run gives %s" % (
                         i, case["calls"][i][0], _short(out.results[i]), _short(ref.results[i])))
                     break
@@ -564,10 +615,14 @@ def judge(case, ref, out, api):
             type(out.snapshot_exc).__name__, _short(out.snapshot_exc.args)))
     elif out.exc_at == "submit" and not out.sent and any(f == "batch-never-sent" for f, _ in v):
         pass    # nothing reached the daemon: the state difference is the same root cause
-    elif not V.same(out.snapshot, ref.snapshot):
+    elif not ext and not V.same(out.snapshot, ref.snapshot):
         fam = _state_family(ref.snapshot, out.snapshot)
         add(fam + (":oneway" if oneway else ""), "remote object after the batch differs from the sequential run: %s" % (
             V.describe_diff(out.snapshot, ref.snapshot),))
+    elif seq is not None and seq.snapshot_exc is None and not V.same(out.snapshot, seq.snapshot):
+        add(_state_family(seq.snapshot, out.snapshot) + ":vs-one-by-one-calls" + (":oneway" if oneway else ""),
+            "remote object after the batch differs from an identical object that got the same calls one by one over the wire: %s" % (
+                V.describe_diff(out.snapshot, seq.snapshot),))
     return v
 
 
@@ -586,12 +641,15 @@ def run_case(case):
     msuffix = ":marshal" if case["ser"] == "marshal" else ""     # MarshalSerializer has its own conversion path for results
     viols = []
     seen = set()
-    for family, what in judge(case, ref, execute(case, "raw"), "raw"):
+    seq = execute(case, "sequential")
+    if seq.exc is not None and ref.fail_pos is None:
+        seq = None       # (the one-by-one run failed where nothing fails: single calls are C01/C07's business, no reference here)
+    for family, what in judge(case, ref, execute(case, "raw"), "raw", seq):
         if family not in seen:
             seen.add(family)
             viols.append(Violation("C11:%s%s" % (family, msuffix if family == "method-exception-not-delivered" else ""), what))
     if public_api_can_spell(case["calls"]):
-        for family, what in judge(case, ref, execute(case, "batchproxy"), "batchproxy"):
+        for family, what in judge(case, ref, execute(case, "batchproxy"), "batchproxy", seq):
             if family not in seen:      # something only the BatchProxy layer does wrong
                 seen.add(family)
                 viols.append(Violation("C11:%s:batchproxy%s" % (family, msuffix if family == "method-exception-not-delivered" else ""), what))
@@ -691,6 +749,19 @@ def case_strategy(draw, ser, servertype):
             if mode == "two" and n >= 2:
                 calls[draw(st.integers(0, n - 1))] = copy.deepcopy(draw(failing_call))
     case = {"ser": ser, "servertype": servertype, "oneway": draw(st.booleans()), "calls": calls}
+    style = draw(st.sampled_from(["plain", "plain", "with-inside", "with-after"]))
+    if style != "plain":
+        case["style"] = style
+    if draw(st.integers(0, 2)) == 0:
+        # values beyond the lossless core (whatever this serializer carries: bytes, tuples, sets, ...) stored and handed back by members
+        k = draw(st.sampled_from(["e1", "e2"]))
+        from checks.c01_values import ext_values, ext_leaves
+        x = draw(st.one_of(ext_leaves(ser), ext_values(ser)))      # (a bare leaf such as bytes is a value too: half of the draws)
+        extra = [["put", [k, x], {}], ["get", [k], {}], ["pair", [x], {}], ["append", [], {"x": x}]]
+        take = draw(st.sampled_from([[0, 1], [0, 1], [0, 1, 2], [0, 1, 3], [2], [3], [2, 3]]))
+        at = draw(st.integers(0, len(calls)))
+        calls[at:at] = [copy.deepcopy(extra[i]) for i in take]
+        case["ext"] = True
     if draw(st.integers(0, 3)) == 0:
         wc = [copy.deepcopy(c) for c in draw(st.lists(st.one_of(_incr, _append, _echo, _total), min_size=1, max_size=3))]
         case["warmup"] = {"calls": wc, "oneway": draw(st.booleans()), "consume": draw(st.sampled_from(["now", "late", "never"]))}
@@ -737,6 +808,10 @@ def _labels(case):
         labels.append("has-kwargs")
     if case.get("warmup"):
         labels.append("batchproxy-reused-after-%s-batch" % ("oneway" if case["warmup"]["oneway"] else "normal"))
+    if case.get("style"):
+        labels.append("batchproxy-as-context-manager:" + case["style"])
+    if case.get("ext"):
+        labels.append("values-beyond-the-lossless-core")
     return labels
 
 
